@@ -224,11 +224,15 @@ def main():
     # ---- verdicts -----------------------------------------------------------
     reported = 0
     seen_sig = set()
+    known_sig = set()
     for d in spec_diffs:
         c = d["case"]
-        sig = (c.ops[d["op_index"]].split(" ")[0] if d["op_index"] < len(c.ops) else "?", d["impl"][:40], d["model"][:40])
+        sig = (c.ops[d["op_index"]].split(" ")[0] if d["op_index"] < len(c.ops) else "?", d["impl"][:40], d["model"][:40],
+               d.get("flavour", "asan"))
         if sig in seen_sig and reported >= 1:
             continue
+        if sig in known_sig:
+            continue           # same operation, same answers as a difference already matched to a listed finding
         seen_sig.add(sig)
         if reported >= 5:
             break
@@ -243,6 +247,7 @@ def main():
         hit = [k for k in known if re.search(k[0], canon)]
         if hit:
             known_lines.append("KNOWN-FINDING: property=%s %s" % (pid, hit[0][1]))
+            known_sig.add(sig)
             continue
         path = write_replay(pid, seed, reported, {
             "property": pid, "kind": "implementation contradicts the property on a concrete input",
